@@ -8,6 +8,11 @@ Each definition names the Rust function it mirrors. Fixed-capacity containers ar
 container's overflow rule spelled out; `assert!` / `expect` / `debug_assert!` (the harness is built
 with debug assertions) that can fail are `Crash.indexOOB "<message>"`.
 
+This file follows the code AFTER the three chords-v2 fixes (a full `active_chords` is "no chord
+activated" instead of a panic; releases reach the active chords during the cool-down; the block after
+the loop of `process_presses` does not run when the loop already activated a chord). The behaviour
+before those fixes is kept in Model/ChordsV2Pinned.lean for the counterexample theorems only.
+
 Integration is by a wrapper (`LayoutV2` = layout + optional chords-v2 state) so that `Layout` and the
 theorems about it are untouched.  One path is therefore NOT mirrored: a one-shot key evicted from
 the full one-shot list (17 one-shot keys active) re-enters `Layout::event` from inside `do_action`;
@@ -81,7 +86,8 @@ def getActiveChord (cch : ChordV2) (since coord : Nat) (releaseFound : Bool) : A
     status := if releaseFound && cch.release == .onFirstRelease then .unreadReleased else .unread,
     delay := since }
 
-/-- `self.active_chords.push(ach)` followed by `assert!(overflow.is_ok(), "active chords has room")` -/
+/-- `self.active_chords.push(ach)` (heapless Vec of 10): `.error` = the push was refused; the callers
+turn that into `no_chord_activations!` -/
 def pushActive (active : List ActiveChord) (ach : ActiveChord) : Except Crash (List ActiveChord) :=
   if active.length < ACTIVE_CHORDS_CAP then .ok (active ++ [ach]) else .error (.indexOOB "active chords has room")
 
@@ -131,6 +137,16 @@ def releaseInActive (j : Nat) (ach : ActiveChord) : ActiveChord :=
                  | .releasable | .released => .released }
   else { ach with remaining := rem }
 
+/-- `release_key_in_active_chords`: one released key applied to every active chord -/
+def releaseKeyInActive (achs : List ActiveChord) (j : Nat) : List ActiveChord := achs.map (releaseInActive j)
+
+/-- the releases of a queue applied to the active chords, in queue order (the loop at the top of
+`drain_inputs` that runs during the cool-down) -/
+def applyReleases (q : List Queued) (achs : List ActiveChord) : List ActiveChord :=
+  q.foldl (fun achs qd => match qd.ev with
+    | .release c => releaseKeyInActive achs c.2
+    | .press _ => achs) achs
+
 /-- `ChordsV2::drain_releases`; `npresses` = presses seen so far (a heapless Vec of 16 whose overflow
 is a `debug_assert`) -/
 def drainReleases : List Queued → Nat → List ActiveChord → List Queued →
@@ -144,7 +160,7 @@ def drainReleases : List Queued → Nat → List ActiveChord → List Queued →
       | .error c => .error c
       | .ok (k, achs, dq) => .ok (qd :: k, achs, dq)
     | .release c =>
-      let achs := achs.map (releaseInActive c.2)
+      let achs := releaseKeyInActive achs c.2
       if np == 0 then drainReleases rest np achs (smolPush dq qd)
       else
         match drainReleases rest np achs dq with
@@ -175,18 +191,26 @@ structure PP where
 
 def minPending (l : List ChordV2) : Nat := l.foldl (fun m c => min m c.pending) U16_MAX
 
+/-- the candidates after one more press: `(chord_candidates, count_possible, min_timeout)`. When the
+previous count equals the length of the candidate list, the list is narrowed (`retain`); otherwise
+it is rebuilt from the table (only the first 16 are stored, all are counted). -/
+def ppCands (possible : List ChordV2) (layer : Nat) (st : PP) (press : Nat) : List ChordV2 × Nat × Nat :=
+  if st.prevCount == some st.cands.length then
+    let c := st.cands.filter (·.keys.contains press)
+    (c, c.length, minPending c)
+  else
+    let f := possible.filter fun pch => enabledOn layer pch && (st.acc ++ [press]).all (pch.keys.contains ·)
+    (f.take SMOL_Q_LEN, f.length, minPending f)
+
 /-- one iteration of `for press in presses` -/
 def ppStep (possible : List ChordV2) (layer since : Nat) (relFound : Bool) (minIdle : Nat) (st : PP) (press : Nat) :
     Except Crash PP :=
   if st.done then .ok st else
   let acc := st.acc ++ [press]
-  let (cands, count, minTimeout) :=
-    if st.prevCount == some st.cands.length then
-      let c := st.cands.filter (·.keys.contains press)
-      (c, c.length, minPending c)
-    else
-      let f := possible.filter fun pch => enabledOn layer pch && acc.all (pch.keys.contains ·)
-      (f.take SMOL_Q_LEN, f.length, minPending f)
+  let r := ppCands possible layer st press
+  let cands := r.1
+  let count := r.2.1
+  let minTimeout := r.2.2
   let st := { st with acc, cands }
   let fin (st : PP) : PP := { st with ticksUntil := minTimeout - since, prevCount := some count }
   match count with
@@ -198,7 +222,7 @@ def ppStep (possible : List ChordV2) (layer since : Nat) (relFound : Bool) (minI
     | some cch =>
       if cch.keys.all (acc.contains ·) then
         match pushActive st.active (getActiveChord cch since coord relFound) with
-        | .error c => .error c
+        | .error _ => .ok { st with ticksToIgnore := minIdle, done := true }
         | .ok a => .ok { st with active := a, done := true }
       else .ok (fin st)
   | 0 =>
@@ -208,7 +232,7 @@ def ppStep (possible : List ChordV2) (layer since : Nat) (relFound : Bool) (minI
     | some cch =>
       let coord := st.nextCoord
       match pushActive st.active (getActiveChord cch since coord relFound) with
-      | .error c => .error c
+      | .error _ => .ok { st with nextCoord := nextCoordAfter st.nextCoord, ticksToIgnore := minIdle, done := true }
       | .ok a => .ok { st with nextCoord := nextCoordAfter st.nextCoord, active := a, done := true }
     | none => .ok { st with ticksToIgnore := minIdle, done := true }
   | _ => .ok (fin st)
@@ -220,6 +244,26 @@ def ppLoop (possible : List ChordV2) (layer since : Nat) (relFound : Bool) (minI
     match ppStep possible layer since relFound minIdle st p with
     | .error c => .error c
     | .ok st => ppLoop possible layer since relFound minIdle rest st
+
+/-- the block after the loop of `process_presses`: when the loop activated nothing and the window has
+closed (or a participant was already released), activate the chord that matches the accumulated
+presses exactly, else start the cool-down. `prevLen` = `prev_active_chords_len`. -/
+def ppFinal (possible : List ChordV2) (layer since : Nat) (relFound : Bool) (minIdle prevLen : Nat) (st : PP) : PP :=
+  if st.active.length == prevLen && (st.ticksUntil == 0 || relFound) then
+    let pool := if st.cands.length ≥ SMOL_Q_LEN then possible else st.cands
+    match (pool.filter (enabledOn layer)).find? (exactMatch st.acc) with
+    | some cch =>
+      match pushActive st.active (getActiveChord cch since st.nextCoord relFound) with
+      | .error _ => { st with ticksToIgnore := minIdle, nextCoord := nextCoordAfter st.nextCoord }
+      | .ok a => { st with active := a, nextCoord := nextCoordAfter st.nextCoord }
+    | none => { st with ticksToIgnore := minIdle }
+  else st
+
+/-- the final `retain` of `process_presses`: the presses consumed by the activated chord leave the queue -/
+def ppRetain (queue : List Queued) (acc : List Nat) : List Queued :=
+  queue.filter fun qd => match qd.ev with
+    | .press c => !acc.contains c.2
+    | .release _ => true
 
 /-- `ChordsV2::process_presses` -/
 def processPresses (s : ChV2) (layer : Nat) : Except Crash ChV2 :=
@@ -238,30 +282,15 @@ def processPresses (s : ChV2) (layer : Nat) : Except Crash ChV2 :=
         match ppLoop possible layer since relFound s.cfg.minIdle presses st0 with
         | .error c => .error c
         | .ok st =>
-          let fin : Except Crash PP :=
-            if st.ticksUntil == 0 || relFound then
-              let pool := if st.cands.length ≥ SMOL_Q_LEN then possible else st.cands
-              match (pool.filter (enabledOn layer)).find? (exactMatch st.acc) with
-              | some cch =>
-                match pushActive st.active (getActiveChord cch since st.nextCoord relFound) with
-                | .error c => .error c
-                | .ok a => .ok { st with active := a, nextCoord := nextCoordAfter st.nextCoord }
-              | none => .ok { st with ticksToIgnore := s.cfg.minIdle }
-            else .ok st
-          match fin with
-          | .error c => .error c
-          | .ok st =>
-            let queue := if st.active.length > s.active.length then
-                s.queue.filter fun qd => match qd.ev with
-                  | .press c => !st.acc.contains c.2
-                  | .release _ => true
-              else s.queue
-            .ok { s with queue, active := st.active, ticksToIgnore := st.ticksToIgnore,
-                         ticksUntilChange := st.ticksUntil, nextCoord := st.nextCoord }
+          let st := ppFinal possible layer since relFound s.cfg.minIdle s.active.length st
+          .ok { s with queue := if st.active.length > s.active.length then ppRetain s.queue st.acc else s.queue,
+                       active := st.active, ticksToIgnore := st.ticksToIgnore,
+                       ticksUntilChange := st.ticksUntil, nextCoord := st.nextCoord }
 
 /-- `ChordsV2::drain_inputs` -/
 def drainInputs (s : ChV2) (dq : List Queued) (layer : Nat) : Except Crash (ChV2 × List Queued) :=
-  if s.ticksToIgnore > 0 then .ok ({ s with queue := [] }, s.queue.foldl smolPush dq)
+  if s.ticksToIgnore > 0 then
+    .ok ({ s with queue := [], active := applyReleases s.queue s.active }, s.queue.foldl smolPush dq)
   else if s.ticksUntilChange > 0 && s.prevActiveLayer == layer && s.prevQueueLen == s.queue.length then
     .ok ({ s with ticksUntilChange := s.ticksUntilChange - 1 }, dq)
   else
